@@ -13,6 +13,9 @@ import (
 	"os/exec"
 	"path/filepath"
 	"regexp"
+	"runtime"
+	"runtime/debug"
+	"runtime/pprof"
 	"sort"
 	"strconv"
 	"strings"
@@ -24,6 +27,7 @@ import (
 	"golang.org/x/tools/go/ssa/ssautil"
 
 	"vf/interp"
+	"vf/smt"
 )
 
 const modPath = "github.com/resgateio/resgate"
@@ -39,6 +43,8 @@ func envOr(k, d string) string {
 	}
 	return d
 }
+
+var stopProfile = func() {}
 
 var pkgDirs = map[string]string{
 	"rescache": "server/rescache",
@@ -208,6 +214,7 @@ type jobResult struct {
 	res *interp.Result
 	err string
 	dur time.Duration
+	sub bool // a prefix task of an instance already counted
 }
 
 func loadIndex() []HarnessSpec {
@@ -260,6 +267,19 @@ func matchKnown(known []KnownFinding, prop string, v *interp.Violation) *KnownFi
 }
 
 func main() {
+	// the SSA program is a large, long-lived heap: collect rarely
+	if at := os.Getenv("VF_MEMPROFILE_AT"); at != "" {
+		n, _ := strconv.Atoi(at)
+		go func() {
+			time.Sleep(time.Duration(n) * time.Second)
+			runtime.GC()
+			f, _ := os.Create("/tmp/mem_at.prof")
+			pprof.WriteHeapProfile(f)
+			f.Close()
+		}()
+	}
+	debug.SetGCPercent(200)
+	debug.SetMemoryLimit(20 << 30)
 	if len(os.Args) < 2 {
 		fatal("usage: vfrun check|replay|selftest ...")
 	}
@@ -287,9 +307,17 @@ func cmdCheck(args []string) {
 	verbose := fs.Bool("v", false, "verbose")
 	paramOv := fs.String("params", "", "override params, e.g. n=3,m=1")
 	maxViol := fs.Int("maxviol", 3, "stop an instance after this many unlisted violations")
+	cpuprof := fs.String("cpuprofile", "", "write a CPU profile")
+	split := fs.Int("split", -1, "decision depth at which instances are split into parallel tasks (-1 auto, 0 off)")
 	fs.Parse(args)
 	if *prop == "" {
 		fatal("-prop required")
+	}
+	if *cpuprof != "" {
+		f, _ := os.Create(*cpuprof)
+		pprof.StartCPUProfile(f)
+		defer pprof.StopCPUProfile()
+		stopProfile = pprof.StopCPUProfile
 	}
 	if t := os.Getenv("VERIF_TIER"); t != "" && !flagSet(fs, "tier") {
 		*tier = t
@@ -346,40 +374,92 @@ func cmdCheck(args []string) {
 		}
 	}
 
-	results := make([]jobResult, len(jobs))
-	var wg sync.WaitGroup
-	ch := make(chan int)
-	for w := 0; w < *workers; w++ {
-		wg.Add(1)
-		go func() {
-			defer wg.Done()
-			for idx := range ch {
-				j := jobs[idx]
-				t1 := time.Now()
-				x, err := interp.NewExplorer(*solver, *timeout)
-				if err != nil {
-					results[idx] = jobResult{job: j, err: err.Error()}
-					continue
-				}
-				if j.spec.MaxPaths > 0 {
-					x.SetBudgets(j.spec.MaxPaths, 0, 0)
-				}
-				kf := func(v *interp.Violation) bool { return matchKnown(known, *prop, v) != nil }
-				res := interp.RunHarnessK(ld.prog, j.fn, x, j.params, *maxViol, kf)
-				x.Close()
-				results[idx] = jobResult{job: j, res: res, dur: time.Since(t1)}
-				if *verbose {
-					fmt.Fprintf(os.Stderr, "  %s %v: paths=%d obl=%d/%d viol=%d queries=%d %.2fs %v\n", j.spec.Harness, j.params,
-						res.Stats.Paths, res.Stats.Discharged, res.Stats.Obligations, len(res.Violations), res.Queries, time.Since(t1).Seconds(), res.Inconclusive)
-				}
-			}
-		}()
+	splitDepth := *split
+	if splitDepth < 0 {
+		splitDepth = 0
+		if len(jobs) < 3**workers {
+			splitDepth = 7
+		}
 	}
-	for i := range jobs {
-		ch <- i
+	runOne := func(sv *smt.Solver, j job, prefix []int64, enumerate bool) (jobResult, [][]int64) {
+		t1 := time.Now()
+		x := interp.NewExplorerOn(sv)
+		if j.spec.MaxPaths > 0 {
+			x.SetBudgets(j.spec.MaxPaths, 0, 0)
+		}
+		if enumerate {
+			x.SetSplit(splitDepth)
+		}
+		if prefix != nil {
+			x.SetPrefix(prefix)
+		}
+		kf := func(v *interp.Violation) bool { return matchKnown(known, *prop, v) != nil }
+		res := interp.RunHarnessK(ld.prog, j.fn, x, j.params, *maxViol, kf)
+		if *verbose {
+			fmt.Fprintf(os.Stderr, "  %s %v prefix=%v: paths=%d obl=%d/%d viol=%d queries=%d %.2fs %v\n", j.spec.Harness, j.params, prefix,
+				res.Stats.Paths, res.Stats.Discharged, res.Stats.Obligations, len(res.Violations), res.Queries, time.Since(t1).Seconds(), res.Inconclusive)
+		}
+		return jobResult{job: j, res: res, dur: time.Since(t1)}, x.Prefixes
 	}
-	close(ch)
-	wg.Wait()
+	type task struct {
+		j      job
+		prefix []int64
+	}
+	var mu sync.Mutex
+	var results []jobResult
+	var tasks []task
+	parallel := func(n int, f func(sv *smt.Solver, i int)) {
+		var wg sync.WaitGroup
+		ch := make(chan int)
+		for w := 0; w < *workers; w++ {
+			wg.Add(1)
+			go func() {
+				defer wg.Done()
+				var sv *smt.Solver
+				defer func() {
+					if sv != nil {
+						sv.Close()
+					}
+				}()
+				for i := range ch {
+					if sv == nil || sv.Dead() || sv.Level() != 0 {
+						if sv != nil {
+							sv.Close()
+						}
+						var err error
+						sv, err = smt.NewSolver(*solver, *timeout)
+						if err != nil {
+							fatal("solver: %v", err)
+						}
+					}
+					f(sv, i)
+				}
+			}()
+		}
+		for i := 0; i < n; i++ {
+			ch <- i
+		}
+		close(ch)
+		wg.Wait()
+	}
+	// phase 1: whole instances, or prefix enumeration when splitting
+	parallel(len(jobs), func(sv *smt.Solver, i int) {
+		r, prefixes := runOne(sv, jobs[i], nil, splitDepth > 0)
+		mu.Lock()
+		results = append(results, r)
+		for _, p := range prefixes {
+			tasks = append(tasks, task{jobs[i], p})
+		}
+		mu.Unlock()
+	})
+	// phase 2: one task per decision prefix
+	parallel(len(tasks), func(sv *smt.Solver, i int) {
+		r, _ := runOne(sv, tasks[i].j, tasks[i].prefix, false)
+		r.sub = true
+		mu.Lock()
+		results = append(results, r)
+		mu.Unlock()
+	})
 
 	report(*prop, *tier, seed, specs, known, results, ld, *noReplay, t0, loadDur, *solver)
 }
